@@ -195,15 +195,16 @@ def size_case(run, m):
     return ok
 
 
-def read_case(run, kind, m, exception=False, echo=False, subclass=False):
+def read_case(run, kind, m, exception=False, echo=False, subclass=False, unit=17, slow=False):
     """part B: one transaction of a real serial client on the fake port (echo: an adaptor that echoes what the host sends,
     client configured with handle_local_echo)"""
-    case = {'part': 'reads', 'client': kind, 'm': m, 'exception': exception, 'echo': echo, 'subclass': subclass}
+    case = {'part': 'reads', 'client': kind, 'm': m, 'exception': exception, 'echo': echo, 'subclass': subclass, 'unit': unit, 'slow': slow}
     framing = IO.framing_of(kind)
     peer = P.ScriptedPeer(framing, script=[{'kind': 'exception', 'code': 2}] if exception else [], timeout=1.0)
     env = IO.Env(peer)
     env.echo = echo
-    unit = 17
+    if slow:
+        env.byte_time = 0.018          # 600 baud: the reply trickles in, one character every 18 ms
     repo.reset_globals()
     with IO.installed(env):
         client = IO.make_client(kind, timeout=1.0, **dict({'handle_local_echo': True} if echo else {}, **({'framer_subclass': True} if subclass else {})))
@@ -395,6 +396,15 @@ def run(run):
                     if exc and q > 3 and not run.thorough:
                         continue
                     ok = read_case(run, kind, m, exc)
+                    if q <= 5 or q % 41 == 0:
+                        # the unit ids at the edges of the range: 0 (answered like any other unit unless the client was told to broadcast),
+                        # 247, 255
+                        ok = read_case(run, kind, m, exc, unit=(0, 0, 255, 247)[q % 4]) and ok
+                        run.count('edge_unit_transactions')
+                        # ... and on a slow line, where the reply is still arriving when the client starts to read
+                        if q <= 5 and (m.get('read_count') or m.get('count') or 1) <= 8:           # (short replies: at 600 baud a long one takes longer than the client's timeout)
+                            ok = read_case(run, kind, m, exc, unit=(0, 17, 255, 0)[q % 4], slow=True) and ok
+                            run.count('slow_line_transactions')
                     if q <= 3 or q % 97 == 0:
                         ok = read_case(run, kind, m, exc, echo=True) and ok
                         run.count('echo_transactions')
@@ -440,5 +450,5 @@ def replay(run, case):
     if case['part'] == 'sizes':
         print('held' if size_case(run, m) else 'differs')
     else:
-        print('held' if read_case(run, case['client'], m, case['exception'], case.get('echo', False), case.get('subclass', False)) else 'differs')
+        print('held' if read_case(run, case['client'], m, case['exception'], case.get('echo', False), case.get('subclass', False), case.get('unit', 17), case.get('slow', False)) else 'differs')
     run.evaluations += 1
